@@ -34,7 +34,7 @@ TEXT = {
               "writer's error, message = the cause's text) where l = faultSites[k], and faultSites has one entry per call (faultSites_length); "
               "faultSites is computed from the compiled tree by walking it in render order with the renderer's state (traceRoot, "
               "Proofs/RenderTrace.lean, proved against the interaction tree by induction over the node tree: sp_renderNode, sp_frender): a "
-              "write issued while a text, object, cycle or include node runs is located at that node (faultSite_text, faultSite_obj), the "
+              "write issued while a text, object, cycle or include node runs is located at that node (faultSite_text, faultSite_obj; an object and a raw block write through trimWriter.WriteVerbatim since the repair fixes/verbatim-output-not-trimmed - the flush of the text pending before them and the flush of each chunk of the value or slice of the body are issued while THAT node runs, so a failure to write a value is reported at the object that printed it and not at whatever wrote next), the "
               "cell tags of a tablerow at the tablerow tag, a raw block, a left trim marker and the flush of a block body or of the whole "
               "render at the invalid location (line 0, no path: faultSite_raw, faultSite_trim), and every enclosing block passes the site "
               "through relocate = parser.WrapError on locations (faultSite_if): a site with a line or a path is kept (relocate_located), the "
